@@ -24,7 +24,7 @@ def silentClosure {F : Type} [DecidableEq F] (sys : Sys F) (S : List (MC F)) : L
 /-- the real machine wrote a record with state `st` and flags `f` -/
 def obsPersist {F : Type} [DecidableEq F] (sys : Sys F) (S : List (MC F)) (st : St) (f : F) : List (MC F) :=
   dedup (((silentClosure sys S).flatMap fun m =>
-    persistSteps sys m ++ (restartSteps sys m).filter (fun m' => m'.alive && m'.active && !(actsOf sys.table m'.st).isEmpty)).filter
+    persistSteps sys m ++ (restartSteps sys m).filter (fun m' => m'.alive && m'.active && (!(actsOf sys.table m'.st).isEmpty || m'.pend.isSome))).filter
       fun m' => m'.st == st && m'.f == f)
 
 /-- the real process died (flags of the environment are re-read at the next persist) -/
